@@ -10,7 +10,8 @@ Definition without_id (id : str) (L : list route) : list route := filter (fun r 
 Definition without_ids (xs : list str) (L : list route) : list route := filter (fun r => negb (mem_str (rt_id r) xs)) L.
 Definition find_id (id : str) (L : list route) : option route := find (fun r => str_eqb (rt_id r) id) L.
 
-Record mspec {M : Type} (ops : mops M) (ok : route -> Prop) (sat : route -> request -> bool) : Type := {
+(* representation: operations preserve "stores exactly L" *)
+Record mrep {M : Type} (ops : mops M) (ok : route -> Prop) : Type := {
   repr : M -> list route -> Prop;
   repr_perm : forall m L L', repr m L -> Permutation L L' -> repr m L';
   (* count never undercounts: pruning on count == 0 is sound, count - 1 never underflows *)
@@ -21,24 +22,29 @@ Record mspec {M : Type} (ops : mops M) (ok : route -> Prop) (sat : route -> requ
   repr_remove : forall m L id, repr m L -> NoDup (ids L) ->
                 repr (fst (m_remove ops id m)) (without_id id L) /\ snd (m_remove ops id m) = find_id id L;
   repr_batch : forall m L xs, repr m L -> NoDup (ids L) -> repr (m_batch_remove ops xs m) (without_ids xs L);
-  (* matching: exactly the stored routes satisfying [sat], each once *)
-  match_nodup : forall m L q, repr m L -> NoDup (ids L) -> NoDup (m_match ops q m);
-  match_in : forall m L q r, repr m L -> NoDup (ids L) -> (In r (m_match ops q m) <-> In r L /\ sat r q = true);
-  (* cache warm-up keeps the representation; explain traces list the matched routes *)
+  (* cache warm-up keeps the representation *)
   repr_cache : forall m L limit level, repr m L -> repr (fst (m_cache ops limit level m)) L;
-  trace_in : forall m L q r, repr m L -> NoDup (ids L) -> (In r (traces_routes (m_trace ops q m)) <-> In r L /\ sat r q = true);
 }.
+Arguments repr {M ops ok}.
+Arguments repr_perm {M ops ok}.
+Arguments repr_len {M ops ok}.
+Arguments repr_new {M ops ok}.
+Arguments repr_insert {M ops ok}.
+Arguments repr_remove {M ops ok}.
+Arguments repr_batch {M ops ok}.
+Arguments repr_cache {M ops ok}.
 
-Arguments repr {M ops ok sat}.
-Arguments repr_perm {M ops ok sat}.
-Arguments repr_len {M ops ok sat}.
-Arguments repr_new {M ops ok sat}.
-Arguments repr_insert {M ops ok sat}.
-Arguments repr_remove {M ops ok sat}.
-Arguments repr_batch {M ops ok sat}.
+(* matching with a per-route predicate [sat]: exactly the stored routes satisfying it, each once;
+   explain traces list the matched routes *)
+Record mspec {M : Type} (ops : mops M) (ok : route -> Prop) (sat : route -> request -> bool) : Type := {
+  ms_rep :> mrep ops ok;
+  match_nodup : forall m L q, repr ms_rep m L -> NoDup (ids L) -> NoDup (m_match ops q m);
+  match_in : forall m L q r, repr ms_rep m L -> NoDup (ids L) -> (In r (m_match ops q m) <-> In r L /\ sat r q = true);
+  trace_in : forall m L q r, repr ms_rep m L -> NoDup (ids L) -> (In r (traces_routes (m_trace ops q m)) <-> In r L /\ sat r q = true);
+}.
+Arguments ms_rep {M ops ok sat}.
 Arguments match_nodup {M ops ok sat}.
 Arguments match_in {M ops ok sat}.
-Arguments repr_cache {M ops ok sat}.
 Arguments trace_in {M ops ok sat}.
 
 (* consequences used everywhere *)
